@@ -112,6 +112,13 @@ pub trait System: Sync {
     fn may_inject(&self, _obj: &Self::Obj) -> bool {
         false
     }
+    /// Abstraction audit: short suffix histories to be executed *unmerged* (on a fresh replay, with all oracles)
+    /// from every transition arrival, including arrivals at states that were seen before.  If state that the
+    /// snapshot does not expose influences behaviour, equal canonical states have different futures and one of
+    /// these suffixes deviates from the reference model.
+    fn audit_suffixes(&self, _obj: &Self::Obj) -> Vec<Vec<u32>> {
+        vec![]
+    }
     /// Is `op` within the contract in this state?  Used when a fixed history is continued after an
     /// injected panic changed which of its later steps are still in contract.
     fn step_allowed(&self, _obj: &Self::Obj, _op: u32) -> bool {
@@ -228,6 +235,8 @@ pub struct Config {
     pub max_viol_sigs: usize,
     /// after the first violation of a level, finish the level for at most this long
     pub grace_secs: u64,
+    /// run the observation suite and the audit suffixes on every arrival, not only on new states
+    pub audit: bool,
 }
 
 pub struct Report {
@@ -370,7 +379,7 @@ fn absorb(cx: &mut Cx, out: &mut WorkerOut) {
 #[allow(clippy::too_many_arguments)]
 fn arrive<S: System>(
     sys: &S,
-    _cfg: &Config,
+    cfg: &Config,
     sh: &Shared,
     out: &mut WorkerOut,
     cx: &mut Cx,
@@ -388,7 +397,7 @@ fn arrive<S: System>(
     let fp = fingerprint(buf);
     let seen = sh.visited[shard(fp)].contains(&fp);
     let nontrivial = sys.nontrivial(obj);
-    if !seen {
+    if !seen || cfg.audit {
         rt::hist_push(OBSERVE_MARK);
         sys.check_state(obj, cx);
         absorb(cx, out);
@@ -411,6 +420,40 @@ fn arrive<S: System>(
         cx.halt = false;
         cx.count("functional_deviation_not_expanded(crash_only)");
         return;
+    }
+    if cfg.audit {
+        let n0 = hist.len();
+        for suf in sys.audit_suffixes(obj) {
+            cx.muted = true;
+            let r = rebuild(sys, hist, cx);
+            cx.muted = false;
+            let Some(mut o2) = r else {
+                break;
+            };
+            cx.count("audit_suffixes");
+            for op in suf {
+                let st2 = Step::plain(op);
+                rt::hist_push(st2.enc());
+                hist.push(st2);
+                sys.step(&mut o2, st2, cx);
+                if cx.viols.is_empty() && !cx.halt {
+                    sys.check_state(&o2, cx);
+                    cx.classes.clear();
+                }
+                if !cx.viols.is_empty() || cx.halt {
+                    break;
+                }
+            }
+            let bad = !cx.viols.is_empty();
+            if bad {
+                file_viols(sys, cx, hist, out, sh);
+            }
+            cx.halt = false;
+            hist.truncate(n0);
+            if bad {
+                return;
+            }
+        }
     }
     // differential twin
     cx.muted = true;
